@@ -224,6 +224,8 @@ class Ctx:
         }
         with open(os.path.join(EVIDENCE_DIR, f"{self.prop}.json"), "w") as f:
             json.dump(ev, f, indent=1, default=_json_default)
+        if self.violations:
+            return 1
         if self.engine_errors:
             return 3
         if require_obligations and n_obl == 0 and evals == 0:
